@@ -21,6 +21,7 @@ assumed of it is `CeilInRange` where stated.  NaN is outside the quantifier,
 which matters for `set_bpm` only (`Spec.finiteArg`).
 -/
 import Proofs.TracksV1HistDb
+import Proofs.TracksV1Table
 
 namespace EngineModel.Properties.C06V1
 
@@ -266,6 +267,41 @@ theorem v1_C06_remove_track (d : Db) (id : Int) :
     rw [this] at hr
     exact hinv _ _ hr
 
+/-- **The `Track` table stays well-formed.**  Distinct ids, `UNIQUE(path)` (from 1.11.1 on: no two
+tracks with the same path) and the row invariant hold of the empty database and are kept by
+`create_track`, `update`, every setter and `remove_track`; so every database reachable through the
+modelled calls satisfies the hypotheses `Inv` / `DbInv` of the theorems above. -/
+theorem v1_C06_table_ok (o : FOps) (d : Db) (hok : TableOk d) :
+    TableOk ⟨d.schema, []⟩ ∧
+    (∀ x d' id, dbCreate o d x = .ok (d', id) → TableOk d') ∧
+    (∀ x d' id, dbUpdate o d id x = .ok d' → TableOk d') ∧
+    (∀ id f v d', dbSet o d id f v = .ok d' → TableOk d') ∧
+    (∀ id, TableOk (dbRemove d id)) := by
+  refine ⟨⟨?_, ?_, ?_⟩, ?_, ?_, ?_, ?_⟩
+  · exact List.nodup_nil
+  · intro _ e1 he1; cases he1
+  · intro id r h; cases h
+  · intro x d' id h; exact dbCreate_tableOk o d d' id x hok h
+  · intro x d' id h; exact dbUpdate_tableOk o d d' id x hok h
+  · intro id f v d' h; exact dbSet_tableOk o d d' id f v hok h
+  · intro id; exact dbRemove_tableOk d id hok
+
+/-- **`UNIQUE(path)` at work**: a relative path that another track already holds (from 1.11.1 on) is
+refused with an SQLite error by `set_relative_path`, and nothing is written. -/
+theorem v1_C06_unique_path (o : FOps) (d : Db) (id id' : Int) (r r' : TrackRows) (p : Bytes)
+    (hs : d.schema.ge .s1_11_1 = true) (hr : d.rows id = some r) (hne : id' ≠ id)
+    (hm : (id', r') ∈ d.tracks) (hp : r'.track.path = some p) :
+    dbSet o d id .relativePath p = .throw .sqlite_error := by
+  have ht : pathTaken d id p = true := by
+    unfold pathTaken
+    rw [hs, Bool.true_and]
+    apply List.any_eq_true.mpr
+    exact ⟨(id', r'), hm, by simp [hne, hp]⟩
+  unfold dbSet
+  rw [hr]
+  simp only
+  exact if_pos ht
+
 /-! ### what `Spec.replay` means: the lens laws of the Spec itself -/
 
 /-- get ∘ put on the Spec record (for a per-slot field: when the slot exists). -/
@@ -358,6 +394,25 @@ example : Spec.independent (.hotCueAt 7) (.hotCueAt 0) = true ∧ Spec.independe
 /-- the path collision is refused by `UNIQUE(path)` -/
 example : exThrown (dbSet exOps exDb 2 .relativePath [97, 47, 49, 46, 109, 112, 51]) = some .sqlite_error := by
   decide +kernel
+example : TableOk exDb := by
+  have h0 : TableOk ⟨.s1_15_0, []⟩ :=
+    ⟨List.nodup_nil, (fun _ e he => by cases he), (fun _ _ h => by cases h)⟩
+  cases h1 : dbCreate exOps ⟨.s1_15_0, []⟩ (exSnap 49) with
+  | ok a =>
+    have t1 := (v1_C06_table_ok exOps ⟨.s1_15_0, []⟩ h0).2.1 (exSnap 49) a.1 a.2 h1
+    cases h2 : dbCreate exOps a.1 (exSnap 50) with
+    | ok b =>
+      have t2 := (v1_C06_table_ok exOps a.1 t1).2.1 (exSnap 50) b.1 b.2 h2
+      have : exDb = b.1 := by unfold exDb; rw [h1]; simp only; rw [h2]
+      rw [this]; exact t2
+    | throw e => have : exDb = a.1 := by unfold exDb; rw [h1]; simp only; rw [h2]
+                 rw [this]; exact t1
+    | ub u => have : exDb = a.1 := by unfold exDb; rw [h1]; simp only; rw [h2]
+              rw [this]; exact t1
+  | throw e => have : exDb = ⟨.s1_15_0, []⟩ := by unfold exDb; rw [h1]
+               rw [this]; exact h0
+  | ub u => have : exDb = ⟨.s1_15_0, []⟩ := by unfold exDb; rw [h1]
+            rw [this]; exact h0
 /-- a removed track: gone, its setters throw, the other track keeps its snapshot -/
 example : (dbRemove exDb 2).rows 2 = none ∧ (dbRemove exDb 2).rows 1 = exDb.rows 1 := by decide +kernel
 example : exThrown (dbSet exOps (dbRemove exDb 2) 2 .title (some [65])) = some (.dj "track_deleted") ∧
